@@ -2,13 +2,17 @@
     Statements only.  Proofs: Proofs/Tables.v (one table: Alloc, Remove, Reset and the
     zero tail), Proofs/Store.v (index/row bijection; Set, move between tables, creation:
     all for arbitrary worlds, including relation tables), Proofs/Graph.v and
-    Proofs/WorldInv.v (the exchange as a whole, for worlds without relation components).
+    Proofs/WorldInv.v (the exchange as a whole, for worlds without relation components),
+    Proofs/RelGraph.v, RelWorld.v, RelRefine.v (the same for ARBITRARY registries, with
+    relation tables, retirement and re-use, and the refinement of the single-entity core
+    to an abstract store entity -> (mask, target, values) over all histories).
 
     [store_ok w live] is the invariant: the index and the table rows are a bijection on
     the alive entities, every table has capacity for its rows, one cell per column, and a
     zero tail.  [ent_cells w e] is what the storage says about [e]: node, target, cells. *)
 From Arche Require Import Model.Base Model.Pool Model.World Model.Ops
-  Proofs.PoolInv Proofs.Tables Proofs.Store Proofs.Graph Proofs.WorldInv.
+  Proofs.PoolInv Proofs.Tables Proofs.Store Proofs.Graph Proofs.WorldInv
+  Proofs.RelGraph Proofs.RelWorld Proofs.RelRefine.
 
 (** Set / write-through: exactly one cell of one entity changes. *)
 Theorem C01_set : forall w live e id v w',
@@ -108,4 +112,28 @@ Proof.
   vm_compute. repeat split; try constructor; auto using elem_of_list_here, elem_of_list_further.
 Qed.
 
+
+(** For arbitrary registries (relation components included): every state reachable from a
+    new world by single-entity operations refines the abstract store - masks, values and
+    targets of ALL alive entities are exactly what the history of calls dictates
+    ([R] relates the world to the abstract state computed by [astep] alone). *)
+Theorem C01_refinement_every_history : forall capinc relcapinc tb ops,
+  0 < capinc -> pre_run (world_init capinc relcapinc tb) a_init ops ->
+  R (run (world_init capinc relcapinc tb) ops) (snd (arun (world_init capinc relcapinc tb) a_init ops)).
+Proof. exact rel_reachable. Qed.
+
+Theorem C01_refinement_step : forall w A o,
+  R w A -> op_pre A o -> R (fst (fst (step w o))) (astep A o (snd (fst (step w o)))).
+Proof. exact rel_step. Qed.
+
+(** What [R] says about one alive entity. *)
+Theorem C01_R_views : forall w A e,
+  R w A -> e ∈ as_live A -> exists a, assoc_get e (as_ents A) = Some a /\
+    ent_mask w e = Some (a_mask a) /\ ent_target w e = Some (a_target a) /\
+    (forall id, id < w_tb w -> bit (a_mask a) id = true -> comp_val w e id = Some (aval a id)).
+Proof.
+  intros w A e HR He. destruct (r_ents _ _ HR e He) as (a & Ha & [V1 V2 V3 _ _ _]). exists a. done.
+Qed.
+
 Print Assumptions C01_history_partial.
+Print Assumptions C01_refinement_every_history.
